@@ -2026,6 +2026,7 @@ class RawExtrinsicMetadata(BaseHashableModel):
     def from_dict(cls, d):
         if "type" in d:
             # Convert from old schema
+            d = dict(d)  # do not modify the caller's dictionary
             type_ = d.pop("type")
             if type_ == "origin":
                 d["target"] = str(Origin(d["target"]).swhid())
